@@ -139,11 +139,7 @@ func (l *loggingConsumer) Get(ctx context.Context) (interface{}, error) {
 	if err != nil {
 		l.x.r.Ret(l.g, "Get", "r", cls(err, ""), "v", 0)
 	} else {
-		iv, ok := v.(int)
-		if !ok {
-			iv = -1 // not a value any producer supplied
-		}
-		l.x.r.Ret(l.g, "Get", "r", "ok", "v", iv)
+		l.x.r.Ret(l.g, "Get", "r", "ok", "v", valCode(v))
 	}
 	return v, err
 }
@@ -160,6 +156,20 @@ func (l *loggingConsumer) Rollback() error {
 	err := l.c.Rollback()
 	l.x.r.Ret(l.g, "Rollback", "r", cls(err, ""))
 	return err
+}
+
+// nilVal is how a nil value (a legitimate value to Put) appears in traces; valCode maps what a consumer received to the
+// trace's integers (-1: something no producer supplied)
+const nilVal = -9
+
+func valCode(v interface{}) int {
+	if v == nil {
+		return nilVal
+	}
+	if iv, ok := v.(int); ok {
+		return iv
+	}
+	return -1
 }
 
 // slack of the bounded-delay check of the sustain profile: "cooldown plus scheduling latency", generously
@@ -239,6 +249,10 @@ func (x *bufExec) do(g string, op BOp) {
 			x.valSeq[g]++
 			ivals[i] = gnum(g)*1000 + x.valSeq[g]
 			vals[i] = ivals[i]
+			if x.sc.Profile == "wake" && (ivals[i]*7+n)%9 == 0 {
+				// nil is a value like any other: a blocked Get must be woken by it too
+				ivals[i], vals[i] = nilVal, nil
+			}
 		}
 		x.mu.Unlock()
 		ctl.Gate("drv.call")
@@ -286,11 +300,7 @@ func (x *bufExec) do(g string, op BOp) {
 		if err != nil || p != "" {
 			x.r.Ret(g, "Get", "r", cls(err, p), "msg", msg(err, p), "v", 0)
 		} else {
-			iv, ok := v.(int)
-			if !ok {
-				iv = -1
-			}
-			x.r.Ret(g, "Get", "r", "ok", "v", iv)
+			x.r.Ret(g, "Get", "r", "ok", "v", valCode(v))
 		}
 	case "commit":
 		c := x.con(op.C)
@@ -351,11 +361,7 @@ func (x *bufExec) do(g string, op BOp) {
 		s := x.b.Slice()
 		is := make([]int, len(s))
 		for i, v := range s {
-			if iv, ok := v.(int); ok {
-				is[i] = iv
-			} else {
-				is[i] = -1
-			}
+			is[i] = valCode(v)
 		}
 		x.r.Ret(g, "Slice", "s", is)
 	case "diff":
@@ -388,7 +394,7 @@ func (x *bufExec) do(g string, op BOp) {
 		p := safeCall(func() {
 			err = bigbuff.Range(x.ctx(op.Ctx), lc, func(index int, value interface{}) bool {
 				calls++
-				iv, _ := value.(int)
+				iv := valCode(value)
 				last := calls >= op.N
 				out := "true"
 				if last {
@@ -416,7 +422,7 @@ func (x *bufExec) do(g string, op BOp) {
 		var seen []int
 		p := safeCall(func() {
 			err = x.b.Range(x.ctx(op.Ctx), c, func(index int, value interface{}) bool {
-				iv, _ := value.(int)
+				iv := valCode(value)
 				seen = append(seen, iv)
 				// the callback takes a while: other goroutines may run (e.g. Put) before it returns
 				for k := 0; k < 6; k++ {
@@ -572,6 +578,48 @@ func genBufScenario(rng *rand.Rand, profile string, mode string) *BScenario {
 		}
 		return "put"
 	}
+	// property-driven shape for C12: Puts in flight while the buffer is closed, and the closer looks at the contents
+	// at once: whatever it sees after Close has returned must not change any more, and no later Put may succeed
+	if profile == "close" && rng.Intn(100) < 25 {
+		sc.Drivers, sc.NCtx = nil, 1
+		sc.Setup = []BOp{{K: "put", N: 1 + rng.Intn(2)}}
+		if rng.Intn(2) == 0 {
+			sc.Setup = append(sc.Setup, BOp{K: "newc", C: 1})
+		}
+		for d, np := 0, 2+rng.Intn(2); d < np; d++ {
+			sc.Drivers = append(sc.Drivers, []BOp{{K: "nop", N: rng.Intn(8)}, {K: "put", N: 1 + rng.Intn(2)}, {K: "put", N: 1}})
+		}
+		sc.Drivers = append(sc.Drivers, []BOp{{K: "nop", N: rng.Intn(8)}, {K: "bclose"}, {K: "slice"}, {K: "size"}, {K: "nop", N: rng.Intn(6)}, {K: "slice"}})
+		if len(sc.Setup) > 1 {
+			sc.Drivers = append(sc.Drivers, []BOp{{K: "nop", N: rng.Intn(8)}, {K: "newc", C: 2}, {K: "get", C: 1, Ctx: 1}, {K: "rollback", C: 1}})
+		}
+		sc.Small = true
+		return sc
+	}
+	// property-driven shape for C03 / C01: a consumer is created while the cleaner shifts the buffer (another consumer
+	// commits at that moment): it starts at the oldest retained value, wherever the shift lands relative to its creation
+	if (profile == "retention" || profile == "fifo") && rng.Intn(100) < 15 {
+		sc.Drivers, sc.NCtx = nil, 1
+		nv := 3 + rng.Intn(3)
+		sc.Setup = []BOp{{K: "newc", C: 1}, {K: "put", N: nv}}
+		var rd []BOp
+		for i := 0; i < nv-1; i++ {
+			rd = append(rd, BOp{K: "get", C: 1, Ctx: 1})
+			if rng.Intn(2) == 0 {
+				rd = append(rd, BOp{K: "commit", C: 1})
+			}
+		}
+		rd = append(rd, BOp{K: "commit", C: 1})
+		sc.Drivers = append(sc.Drivers, rd)
+		for c := 2; c <= 2+rng.Intn(2); c++ {
+			sc.Drivers = append(sc.Drivers, []BOp{{K: "nop", N: rng.Intn(10)}, {K: "newc", C: c}, {K: "get", C: c, Ctx: 1}, {K: "diff", C: c}, {K: "get", C: c, Ctx: 1}})
+		}
+		if rng.Intn(2) == 0 {
+			sc.Drivers = append(sc.Drivers, []BOp{{K: "nop", N: rng.Intn(10)}, {K: "put", N: 1}})
+		}
+		sc.Small = true
+		return sc
+	}
 	// property-driven shape for C03: after a forced trim one consumer has fallen behind while two others are still
 	// active at different committed offsets; the cleaner is then evaluated many times (every Put wakes it; the order in
 	// which it sees the consumers varies): what the slowest ACTIVE consumer has not committed must stay readable
@@ -605,6 +653,7 @@ func genBufScenario(rng *rand.Rand, profile string, mode string) *BScenario {
 		sc.Drivers = append(sc.Drivers, pokes)
 		sc.Drivers = append(sc.Drivers, []BOp{{K: "nop", N: rng.Intn(8)}, {K: "rollback", C: cs}, {K: "get", C: cs, Ctx: 1}, {K: "get", C: cs, Ctx: 1}, {K: "diff", C: cs}, {K: "size"}})
 		sc.Drivers = append(sc.Drivers, []BOp{{K: "nop", N: rng.Intn(8)}, {K: "get", C: ci, Ctx: 1}, {K: "diff", C: ci}, {K: "get", C: cf, Ctx: 1}})
+		sc.Small = true
 		return sc
 	}
 	// property-driven shape for C01: Puts whose context is cancelled while they are on their way (after the context check,
@@ -785,7 +834,9 @@ func genBufScenario(rng *rand.Rand, profile string, mode string) *BScenario {
 				ops = append(ops, BOp{K: "nop", N: rng.Intn(6)})
 			}
 			ops = append(ops, op)
-			if (profile == "reclaim" || profile == "retention") && rng.Intn(10) == 0 && !sc.setOnce {
+			if (profile == "reclaim" || profile == "retention") && small && rng.Intn(8) == 0 && !sc.setOnce {
+				// (controlled mode only: with the many overlapping Puts of free-running programs a history with a cleaner
+				// switch in the middle takes TLC minutes to explain)
 				sc.setOnce = true // (one switch per scenario: several concurrent ones make the history expensive to explain)
 				// the cleaner configuration is replaced while the buffer is in use
 				cl := &BCleaner{Kind: "default"}
